@@ -125,6 +125,16 @@ func (r *Run) Sample(s any) {
 	r.mu.Unlock()
 }
 
+// SampleIfFew records s only while fewer than n samples exist (guarantees some samples
+// without depending on which cases happen to come first).
+func (r *Run) SampleIfFew(n int, s any) {
+	r.mu.Lock()
+	if len(r.samples) < n && len(r.samples) < r.maxSample {
+		r.samples = append(r.samples, s)
+	}
+	r.mu.Unlock()
+}
+
 func (r *Run) Set(key string, v any) { r.mu.Lock(); r.extra[key] = v; r.mu.Unlock() }
 func (r *Run) Assume(s string)       { r.mu.Lock(); r.assume = append(r.assume, s); r.mu.Unlock() }
 func (r *Run) Exhaustive()           { r.exhaust = true }
